@@ -52,6 +52,7 @@ type tr struct {
 	funcs   map[string]*ast.FuncLit // local closures
 	fres    map[string][]ty         // their result types
 	params  map[string]string       // call text -> free parameter (e.g. time.Until(deadline) -> g_remaining)
+	consts  map[string]ast.Expr     // package-level constants of the file with literal values
 	results []ty                    // result types of the function being translated (for nil in a return)
 }
 
@@ -208,6 +209,9 @@ func (t *tr) expr(e ast.Expr) (string, ty, string) {
 		}
 		if ty, ok := t.vars[x.Name]; ok {
 			return gname(x.Name), ty, ""
+		}
+		if ce, ok := t.consts[x.Name]; ok {
+			return t.expr(ce) // a package-level constant of the same file: its literal value
 		}
 		t.fail(e, "identifier %s is not a local variable or parameter", x.Name)
 	case *ast.SelectorExpr:
@@ -918,7 +922,21 @@ func translate(repo string, tg target) (out string, err error) {
 	if fd == nil {
 		return "", fmt.Errorf("%s: function %s not found", tg.File, tg.Func)
 	}
-	t := &tr{fset: fset, vars: map[string]ty{}, funcs: map[string]*ast.FuncLit{}, fres: map[string][]ty{}, params: tg.Params}
+	t := &tr{fset: fset, vars: map[string]ty{}, funcs: map[string]*ast.FuncLit{}, fres: map[string][]ty{}, params: tg.Params, consts: map[string]ast.Expr{}}
+	for _, d := range f.Decls {
+		if gd, ok := d.(*ast.GenDecl); ok && gd.Tok == token.CONST {
+			for _, sp := range gd.Specs {
+				vs := sp.(*ast.ValueSpec)
+				for i, n := range vs.Names {
+					if i < len(vs.Values) {
+						if bl, ok := vs.Values[i].(*ast.BasicLit); ok {
+							t.consts[n.Name] = bl
+						}
+					}
+				}
+			}
+		}
+	}
 	var sb strings.Builder
 	fmt.Fprintf(&sb, "(* GENERATED by tools/go2coq from %s (func %s) - do not edit, not committed *)\n", tg.File, tg.Func)
 	sb.WriteString("From Goat Require Import Base.Bytes Model.Meta Gen.GoPrims.\nOpen Scope Z_scope.\n\n")
